@@ -19,8 +19,10 @@ After the pattern the bench stops changing things, and waits (bounded) for conve
 Oracle (ULPI 1.1 register map, no luna code): requested Function Control = XcvrSelect | TermSelect<<2 | OpMode<<3 |
 SuspendM<<6, requested OTG Control = IdPullup | DpPulldown<<1 | DmPulldown<<2 | DischrgVbus<<3 | ChrgVbus<<4 |
 UseExternalVbusIndicator<<7, computed every cycle from the sampled control inputs.  Judged:
-  * every register write the PHY commits addresses 0x04 or 0x0A and carries a value the addressed register's inputs
-    had at some cycle since that register last equalled its request (= while the write was wanted) up to the commit;
+  * every register write the PHY commits addresses 0x04 or 0x0A (or the constant extra register 0x16 that a quarter of the cases
+    add through `add_extra_register`) and carries a value the addressed register's inputs
+    had at some cycle between the previous commit to that register and this commit (a link may latch the value when it
+    requests the write and present the command much later);
   * bounded convergence: 300 bus-free cycles after the last change / transmission / PHY activity the PHY registers 0x04
     and 0x0A equal the requests, and nothing is written during the following 12 cycles;
   * bounded progress: a pending UTMI transmission gets a byte accepted at least every 150 cycles in which the PHY leaves
@@ -52,8 +54,8 @@ RULE = ("case = up to 14 episodes (single / multi / double / revert / under_dir 
 REQUIRED_BINS = ["ep_single", "ep_multi", "ep_double", "ep_revert", "ep_under_dir", "ep_tx_coincide", "ep_traffic", "ep_abort_stage", "ep_tx_near",
                  "converged_episode", "change_inside_tx_body", "write_aborted_at_command", "write_aborted_before_data",
                  "write_aborted_by_dir", "write_aborted_in_stp_cycle", "change_while_write_in_flight", "change_same_cycle_as_tx_start",
-                 "change_between_tx_start_and_txcmd_accept", "regwrite_startable_while_txcmd_pending", "tx_waits_for_regwrite", "both_registers_pending", "with_rst_pin",
-                 "reg_data_nxt_throttled", "change_of_0x04_while_0x0a_in_flight", "revert_before_data_byte"]
+                 "regwrite_startable_while_txcmd_pending", "tx_waits_for_regwrite", "both_registers_pending", "with_rst_pin",
+                 "reg_data_nxt_throttled", "change_of_0x04_while_0x0a_in_flight", "revert_before_data_byte", "extra_register"]
 REQUIRED_EVENTS = ["writes_committed", "writes_value_checked", "convergence_checks", "tx_packets_completed", "progress_cycles_watched",
                    "control_changes"]
 ASSUMPTIONS = ["eventually = within 300 bus-free cycles (convergence) / 150 bus-free cycles (progress)",
@@ -86,6 +88,13 @@ def _run_case(rng, tier, res):
     with_rst = rng.random() < 0.2
     ulpi = make_ulpi(with_rst)
     dut = UTMITranslator(ulpi=ulpi, handle_clocking=False)
+    extra = {}
+    if rng.random() < 0.25:
+        # a constant extra register through the public add_extra_register() API (0x16 = ULPI scratch register): third entry of
+        # the control translator's register chain; it has to be written once after start-up
+        extra[0x16] = rng.randrange(256)
+        dut.add_extra_register(0x16, extra[0x16], default_value=extra[0x16] ^ rng.randint(1, 255))
+        res.bin("extra_register")
     startup = 0
     if with_rst:
         startup = rng.randint(10, 60)
@@ -109,8 +118,9 @@ def _run_case(rng, tier, res):
         ctl["op_mode"] = rng.choice([0, 0, 2])
 
     # ------------------------------------------------------------------ per-cycle history (index = cycle)
-    req = {0x04: [None], 0x0A: [None]}       # requested composites, from the *sampled* control inputs
-    regs_hist = {0x04: [None], 0x0A: [None]}  # PHY register content after each cycle
+    addrs = [0x04, 0x0A] + sorted(extra)
+    req = {a: [None] for a in addrs}         # requested composites, from the *sampled* control inputs
+    regs_hist = {a: [None] for a in addrs}   # PHY register content after each cycle
     change_cycles = []                       # cycles in which a sampled control input differs from the previous cycle
     utmi_accepts = []
     st = {"dead": False, "tx_wait": 0, "wr_wait": 0, "tx_pending_since": None, "tx_first_accept": False,
@@ -122,16 +132,21 @@ def _run_case(rng, tier, res):
     def V(mech, k, detail):
         raw.append((mech, k, detail))
 
+    def regs_text():
+        return ", ".join("%#04x PHY %s / requested %s" % (a, fmt(phy.regs.get(a)), fmt(req[a][-1])) for a in addrs)
+
     def pending_now():
-        return phy.regs.get(0x04) != req[0x04][-1] or phy.regs.get(0x0A) != req[0x0A][-1]
+        return any(phy.regs.get(a) != req[a][-1] for a in addrs)
 
     def monitor(b):
         k = b.cycle
         cur = {name: b.get(sig) for name, sig in ctl_sigs.items()}
         req[0x04].append(function_control(cur))
         req[0x0A].append(otg_control(cur))
-        regs_hist[0x04].append(phy.regs.get(0x04))
-        regs_hist[0x0A].append(phy.regs.get(0x0A))
+        for a in extra:
+            req[a].append(extra[a])
+        for a in addrs:
+            regs_hist[a].append(phy.regs.get(a))
         if st["prev_ctl"] is not None and cur != st["prev_ctl"]:
             change_cycles.append(k)
             res.event("control_changes")
@@ -173,11 +188,10 @@ def _run_case(rng, tier, res):
         if st["tx_wait"] > PROGRESS_BOUND or st["wr_wait"] > PROGRESS_BOUND:
             tx_blocked = st["tx_wait"] > PROGRESS_BOUND
             detail = ("cycle %d: %s; tx_valid since %s (first byte accepted: %s), register difference pending: %s "
-                      "(0x04 PHY %s / requested %s, 0x0A PHY %s / requested %s), link has driven nothing for %d cycles, control changes at %s, PHY mode %d"
+                      "(%s), link has driven nothing for %d cycles, control changes at %s, PHY mode %d"
                       % (k, "transmission made no progress for %d bus-free cycles" % st["tx_wait"] if tx_blocked
                          else "register difference not written for %d bus-free cycles" % st["wr_wait"],
-                         st["tx_pending_since"], st["tx_first_accept"], pending_now(), fmt(phy.regs.get(0x04)), fmt(req[0x04][-1]),
-                         fmt(phy.regs.get(0x0A)), fmt(req[0x0A][-1]), st["idle_bus"], change_cycles[-4:], phy.mode))
+                         st["tx_pending_since"], st["tx_first_accept"], pending_now(), regs_text(), st["idle_bus"], change_cycles[-4:], phy.mode))
             if tx_blocked:
                 V("tx_blocked", k, detail)
             else:
@@ -291,9 +305,9 @@ def _run_case(rng, tier, res):
     def classify_not_converged(ep, why):
         k = b.cycle
         chg, lo = changes_since_checkpoint(k)
-        detail = ("episode %d (%s) %s: PHY 0x04=%s requested %s, PHY 0x0A=%s requested %s; link commands since the last converged checkpoint (cycle %d): %s, "
+        detail = ("episode %d (%s) %s: %s; link commands since the last converged checkpoint (cycle %d): %s, "
                   "control changes %s, commits %s"
-                  % (ep["index"], ep["pattern"], why, fmt(phy.regs.get(0x04)), fmt(req[0x04][-1]), fmt(phy.regs.get(0x0A)), fmt(req[0x0A][-1]),
+                  % (ep["index"], ep["pattern"], why, regs_text(),
                      lo, [(c, hex(v)) for c, v in phy.cmd_seen if c > lo][-6:], chg[:6], [(w[0], hex(w[1]), hex(w[2])) for w in phy.reg_writes if w[0] > lo][-6:]))
         V("registers_not_converged", k, detail)
 
@@ -444,23 +458,22 @@ def judge_writes(res, V, phy, req, regs_hist, change_cycles, st):
             res.bin("change_while_write_in_flight")
         lo_cp = max([c for c in st["checkpoints"] if c <= first_seen] or [0])
         chg_ep = [c for c in change_cycles if lo_cp < c <= kc]
-        if addr not in (0x04, 0x0A):
+        if addr not in req:
             V("regwrite_to_register_0" if addr == 0 else "regwrite_to_unrequested_register", kc,
               "write of %#04x to register %#04x committed at cycle %d (command first seen %d); control changes since the last converged checkpoint (%d): %s"
               % (value, addr, kc, first_seen, lo_cp, chg_ep[:6]))
             continue
         res.event("writes_value_checked")
-        lo = min(first_seen, n - 1)
-        floor = prev_commit.get(addr, 1)
-        while lo > floor and regs_hist[addr][lo - 1] != req[addr][lo - 1]:
-            lo -= 1
-        allowed = set(req[addr][max(1, lo - 2):min(kc, n - 1) + 1])
+        # A correct link may latch the value when the write is requested and present the command arbitrarily later (DIR held by
+        # the PHY, aborted attempts): every value requested for this register since its previous commit is acceptable.
+        lo = max(1, prev_commit.get(addr, 1) - 2)
+        allowed = set(req[addr][lo:min(kc, n - 1) + 1])
         other = 0x0A if addr == 0x04 else 0x04
-        if regs_hist[other][min(kc, n - 1) - 1] != req[other][min(kc, n - 1) - 1]:
+        if any(regs_hist[o][min(kc, n - 1) - 1] != req[o][min(kc, n - 1) - 1] for o in req if o != addr):
             res.bin("both_registers_pending")
         if addr == 0x0A and any(req[0x04][c] != req[0x04][c - 1] for c in chg_in_flight if 1 < c < n):
             res.bin("change_of_0x04_while_0x0a_in_flight")
-        if info.get("data_cycle") and any(c < info["data_cycle"] for c in chg_in_flight) and req[addr][min(kc, n - 1)] == regs_hist[addr][max(1, lo - 1)]:
+        if info.get("data_cycle") and any(c < info["data_cycle"] for c in chg_in_flight) and req[addr][min(kc, n - 1)] == regs_hist[addr][max(1, min(first_seen, n - 1) - 1)]:
             res.bin("revert_before_data_byte")
         if value not in allowed:
             V("regwrite_value_never_requested", kc,
@@ -506,7 +519,7 @@ def classify(res, raw, phy, req, regs_hist, change_cycles, st, tx_rises, startup
 
     def pending_at(c):
         c = max(1, min(c, n - 1))
-        return regs_hist[0x04][c] != req[0x04][c] or regs_hist[0x0A][c] != req[0x0A][c]
+        return any(regs_hist[a][c] != req[a][c] for a in req)
 
     accepts = sorted([p["accept"] for p in phy.tx_packets] + ([phy.pkt["accept"]] if phy.pkt else []))
     events = set(change_cycles)
